@@ -13,7 +13,7 @@ if [ ! -d "$LANE/repo/.git" ]; then
   rsync -a --exclude .git --exclude fuzz/target --exclude fuzz/corpus /verif/ "$LANE/verif/"
 fi
 git -C "$LANE/repo" checkout -q -- . && git -C "$LANE/repo" pull -q 2>/dev/null
-rsync -a --delete --exclude .git --exclude target --exclude target-bg --exclude fuzz/target --exclude fuzz/corpus --exclude 'replays/*/fail-*' --exclude mutsweep /verif/ "$LANE/verif/"
+[ -n "${LANE_NOSYNC:-}" ] || rsync -a --delete --exclude .git --exclude target --exclude target-bg --exclude fuzz/target --exclude fuzz/corpus --exclude 'replays/*/fail-*' --exclude mutsweep /verif/ "$LANE/verif/"
 sed -i "s|path = \"/repo\"|path = \"$LANE/repo\"|" "$LANE/verif/harness/Cargo.toml" "$LANE/verif/fuzz/Cargo.toml"
 if ! git -C "$LANE/repo" apply --check "$PATCH" 2>/dev/null; then echo "patch does not apply: $PATCH"; exit 2; fi
 git -C "$LANE/repo" apply "$PATCH"
